@@ -116,17 +116,29 @@ def split_edited(edited: list) -> tuple[set, set]:
             {p[len(ENV_PREFIX):] for p in edited if p.startswith(ENV_PREFIX)})
 
 
-def optional_upstream_shape(label: str, executed: list, pre: dict, post: dict) -> list:
+def _idle_optional(label: str, pre: dict) -> bool:
+    a = pre.get(label)
+    return a is not None and not a["detached"] and a["need"] == "OPTIONAL" and a["state"] == "PENDING"
+
+
+def optional_upstream_shape(label: str, executed: list, pre: dict, post: dict, _depth: int = 0) -> list:
     """The circumstance of finding D38 (C04_full_refuted), and nothing else: `label` was an attached OPTIONAL step
     that the previous build left idle (PENDING), and an output of it is consumed after the rebuild by ANOTHER
-    EXECUTED step that did not consume it before (new, or declared differently).  Returns those consumers."""
-    a = pre.get(label)
-    if a is None or a["detached"] or a["need"] != "OPTIONAL" or a["state"] != "PENDING":
+    EXECUTED step that did not consume it before (new, or declared differently) - or that consumed it before but
+    was itself such an idle optional step that becomes needed in this rebuild (a chain of optional steps: the
+    implied need travels upstream from the newly declared consumer).  Returns those consumers."""
+    if not _idle_optional(label, pre):
         return []
-    outs = set(a["outputs"]) | set(post.get(label, a)["outputs"])
-    return sorted(o for o in set(executed) - {label}
-                  if o in post and post[o]["inputs"] & outs
-                  and not (o in pre and not pre[o]["detached"] and pre[o]["inputs"] & outs))
+    outs = set(pre[label]["outputs"]) | set(post.get(label, pre[label])["outputs"])
+    found = []
+    for o in sorted(set(executed) - {label}):
+        if o not in post or not post[o]["inputs"] & outs:
+            continue
+        if not (o in pre and not pre[o]["detached"] and pre[o]["inputs"] & outs):
+            found.append(o)
+        elif _depth < 8 and _idle_optional(o, pre) and optional_upstream_shape(o, executed, pre, post, _depth + 1):
+            found.append(o)
+    return found
 
 
 def unjustified(executed: list, edited: list, pre: dict, post: dict) -> list:
@@ -574,6 +586,9 @@ def run_optional_upstream(flavour: str) -> dict:
             "the-consumer-consumed-it-before": ({**pre, "tx": tx}, post, exe),
             "the-consumer-is-not-executed": (pre, post, [l for l in exe if l != "tx"]),
             "the-consumer-reads-another-file": (pre, {**post, "tx": dict(post["tx"], inputs={"other.txt"})}, exe),
+            # a chain of idle optional steps counts only when its end is a new consumer
+            "the-consumer-was-an-idle-optional-step-nothing-new-needs": (
+                {**pre, "tx": dict(tx, need="OPTIONAL", state="PENDING")}, post, exe),
         }
         for name, (a, b, e) in variants.items():
             if optional_upstream_shape("tu", e, a, b):
